@@ -149,8 +149,18 @@ def phase_script(draw):
             pro.append(f"sleep({draw(st.integers(0, 5))})")
     if ("lcd" in pro_kinds or "lci" in pro_kinds) and draw(st.booleans()):
         l = "lcd" if "lcd" in pro_kinds else "lci"
-        pro.append(f"{l}.animate('{draw(st.sampled_from(['scroll', 'blink', 'typewriter', 'bounce']))}', 0, 'hello', speed_ms={draw(st.sampled_from([0, 1, 50]))}, loop={draw(st.booleans())})")
+        styles = ['scroll', 'blink', 'typewriter', 'bounce']
+        st0 = draw(st.sampled_from(styles))
+        sp0, lp0 = draw(st.sampled_from([0, 1, 50])), draw(st.booleans())
+        pro.append(f"{l}.animate('{st0}', 0, 'hello', speed_ms={sp0}, loop={lp0})")
         info["anim"] = True
+        info["anim_rows"] = [[0, sp0, lp0]]
+        if draw(st.booleans()):
+            # a second animation on the other row, of the same kind half of the time: both are housekeeping of every pass
+            st1 = st0 if draw(st.booleans()) else draw(st.sampled_from(styles))
+            sp1, lp1 = draw(st.sampled_from([0, 0, 1, 50])), draw(st.sampled_from([True, True, False]))
+            pro.append(f"{l}.animate('{st1}', 1, 'a longer text than the row holds', speed_ms={sp1}, loop={lp1})")
+            info["anim_rows"].append([1, sp1, lp1])
     marker(pro, info["pro_markers"])
     lines += pro
     expect_reject = False
@@ -346,6 +356,9 @@ def monitors(case, trace):
             late = [(k, a) for _, k, a in le[first_user:] if k.startswith("LCD_")]
             if late:
                 fails.append(("m4-lcd-tick-after-user-code", f"pass {i}: animation tick before the first user statement", late[:2]))
+        for row, sp, lp in info.get("anim_rows", []):
+            if sp == 0 and lp and not any(k == "LCD_CURSOR" and int(a.split()[2]) == row for _, k, a in head):
+                fails.append(("m4-animation-not-ticked", f"pass {i}: the looping speed_ms=0 animation on row {row} steps in every pass", "no frame for that row"))
         if any(k in ("DELAY",) for _, k, a in head):
             fails.append(("m4-delay-in-housekeeping", f"pass {i}: no delay before the first user statement", [x for x in head if x[1] == "DELAY"][:2]))
     return fails
